@@ -1208,6 +1208,29 @@ func specBytesAre(nb []byte, base []byte, n int, p *Packet) bool {
 		verifForall(0, 188, func(j int) bool { return j < specHdrLen(p) || nb[n+j-specHdrLen(p)] == p[j] })
 }
 
+// specFDone / specFErr: what the completion predicate says about the accumulated bytes.
+func specFDone(a *accumulator) bool { d, _ := a.f(a.buf.Bytes()); return d }
+func specFErr(a *accumulator) error { _, e := a.f(a.buf.Bytes()); return e }
+
+// verifSnapPtrs returns an independent copy of a packet list (used under old(...)).
+func verifSnapPtrs(b []*Packet) []*Packet {
+	c := make([]*Packet, len(b))
+	copy(c, b)
+	return c
+}
+
+// specPtrsPrefix: the first n entries of nl are those of base (the same copies, in order).
+func specPtrsPrefix(nl []*Packet, base []*Packet, n int) bool {
+	return verifForall(0, n, func(k int) bool { return nl[k] == base[k] })
+}
+
+func specPrefixIs(nb []byte, base []byte, n int) bool {
+	return verifForall(0, n, func(k int) bool { return nb[k] == base[k] })
+}
+func specTailIs(nb []byte, n int, p *Packet) bool {
+	return verifForall(0, 188, func(j int) bool { return j < specHdrLen(p) || nb[n+j-specHdrLen(p)] == p[j] })
+}
+
 //@ func NewAccumulator(f func(data []byte) (done bool, err error)) Accumulator
 //@   props C17
 //@   ensures specAccOK(accOf(result)) && fresh(accOf(result)) && accOf(result).state == 0 && len(accOf(result).packets) == 0 && len(specAccBytes(accOf(result))) == 0
@@ -1215,22 +1238,35 @@ func specBytesAre(nb []byte, base []byte, n int, p *Packet) bool {
 
 //@ func (a *accumulator) WritePacket(pkt *Packet) (n int, err error)
 //@   props C17
-//@   requires specAccOK(a) && pkt != nil && specHdrLen(pkt) <= 188
+//@   paths
+//@   requires specAccOK(a) && pkt != nil && specHdrLen(pkt) <= 188 && verifSeparate(specAccBytes(a), pkt)
 //@   ensures specAccOK(a)
 //@   ensures old(a.state) == 2 ==> n == 0 && err == gots.ErrAccumulatorDone && a.state == 2 && len(a.packets) == old(len(a.packets)) && len(specAccBytes(a)) == old(len(specAccBytes(a)))
 //@   ensures old(a.state) == 0 && !specPUSI(pkt) ==> n == 188 && err == gots.ErrNoPayloadUnitStartIndicator && a.state == 0 && len(a.packets) == old(len(a.packets)) && len(specAccBytes(a)) == old(len(specAccBytes(a)))
 //@   ensures specAccepts(old(a.state), pkt) && specAFC(pkt)%2 == 1 && specPUSI(pkt) ==> n == 188 && specBytesAre(specAccBytes(a), old(verifSnap(specAccBytes(a))), 0, pkt)
-//@   ensures specAccepts(old(a.state), pkt) && specAFC(pkt)%2 == 1 && !specPUSI(pkt) ==> n == 188 && specBytesAre(specAccBytes(a), old(verifSnap(specAccBytes(a))), old(len(specAccBytes(a))), pkt)
-//@   ensures specAccepts(old(a.state), pkt) && specAFC(pkt)%2 == 1 && specPUSI(pkt) ==> len(a.packets) == 1 && fresh(a.packets[0]) && Equal(a.packets[0], pkt)
-//@   ensures specAccepts(old(a.state), pkt) && specAFC(pkt)%2 == 1 && !specPUSI(pkt) ==> len(a.packets) == old(len(a.packets))+1 && fresh(a.packets[len(a.packets)-1]) && Equal(a.packets[len(a.packets)-1], pkt)
-//@   ensures specAccepts(old(a.state), pkt) && specAFC(pkt)%2 == 0 ==> n == 188 && err == gots.ErrNoPayload && (specPUSI(pkt) ==> len(specAccBytes(a)) == 0) && (!specPUSI(pkt) ==> len(specAccBytes(a)) == old(len(specAccBytes(a))))
+//@   ensures specAccepts(old(a.state), pkt) && specAFC(pkt)%2 == 1 && !specPUSI(pkt) ==> n == 188 && len(specAccBytes(a)) == old(len(specAccBytes(a))) + specPayloadLen(pkt)
+//@   ensures specAccepts(old(a.state), pkt) && specAFC(pkt)%2 == 1 && !specPUSI(pkt) ==> specPrefixIs(specAccBytes(a), old(verifSnap(specAccBytes(a))), old(len(specAccBytes(a))))
+//@   ensures specAccepts(old(a.state), pkt) && specAFC(pkt)%2 == 1 && !specPUSI(pkt) ==> specTailIs(specAccBytes(a), old(len(specAccBytes(a))), pkt)
+//@   ensures specAccepts(old(a.state), pkt) && specPUSI(pkt) ==> len(a.packets) == 1 && fresh(a.packets[0]) && Equal(a.packets[0], pkt)
+//@   ensures specAccepts(old(a.state), pkt) && !specPUSI(pkt) ==> len(a.packets) == old(len(a.packets))+1 && fresh(a.packets[len(a.packets)-1]) && Equal(a.packets[len(a.packets)-1], pkt)
+//@   ensures specAccepts(old(a.state), pkt) && !specPUSI(pkt) ==> specPtrsPrefix(a.packets, old(verifSnapPtrs(a.packets)), old(len(a.packets)))
+//@   ensures specAccepts(old(a.state), pkt) && specAFC(pkt)%2 == 0 ==> n == 188 && err == gots.ErrNoPayload && a.state == 1 && (specPUSI(pkt) ==> len(specAccBytes(a)) == 0) && (!specPUSI(pkt) ==> len(specAccBytes(a)) == old(len(specAccBytes(a))))
+//@   ensures specAccepts(old(a.state), pkt) && specAFC(pkt)%2 == 1 && specFErr(a) != nil ==> err == specFErr(a) && a.state == 1
+//@   ensures specAccepts(old(a.state), pkt) && specAFC(pkt)%2 == 1 && specFErr(a) == nil && specFDone(a) ==> err == gots.ErrAccumulatorDone && a.state == 2
+//@   ensures specAccepts(old(a.state), pkt) && specAFC(pkt)%2 == 1 && specFErr(a) == nil && !specFDone(a) ==> err == nil && a.state == 1
 //@   ensures forall j in 0..188 :: pkt[j] == old(*pkt)[j]
-//@   modifies *a, *a.buf, a.packets[..]
+//@   modifies *a, *a.buf, a.packets[0..cap(a.packets)]
 
 //@ func (a *accumulator) Bytes() []byte
 //@   props C17
 //@   requires specAccOK(a)
 //@   ensures fresh(result) && len(result) == len(specAccBytes(a)) && forall k in 0..len(result) :: result[k] == specAccBytes(a)[k]
+//@   modifies nothing
+
+//@ func (a *accumulator) Packets() []*Packet
+//@   props C17
+//@   requires a != nil
+//@   ensures fresh(result) && len(result) == len(a.packets) && forall k in 0..len(result) :: result[k] == a.packets[k]
 //@   modifies nothing
 
 //@ func (a *accumulator) Reset()
